@@ -46,7 +46,7 @@ var c09Pool = [][]string{
 	{"CCA", "CCB", "CCC"},
 	{"Shopa", "Shopb", "Shopc"},
 }
-var c09New = []string{"zz:new", "ZZZ", "Zed"}
+var c09New = []string{"zz:new", "ZZZZ", "Zed"}
 var c09KindName = []string{"account", "commodity", "payee"}
 
 // Known-finding classes. Every predicate is a predicate of the configuration (mode, requesting file, which file is
@@ -67,12 +67,15 @@ const (
 	c09ClsDirNoEnd = "c09-directive-name-no-end"
 	// cursor on the name in an account / commodity directive: no symbol is found, no references, no rename.
 	c09ClsFromDecl = "c09-references-from-declaration-none"
+	// the commodity of a balance assertion is not an occurrence for the server: never listed, never renamed, and the
+	// cursor on it finds no symbol.
+	c09ClsAssertComm = "c09-assertion-commodity-not-an-occurrence"
 )
 
 type c09Cfg struct {
 	n     int
 	rich  bool // every file: optional declaration with a free name; optional second transactions (tx2)
-	tx2   int  // rich only: 1 = a second transaction in at most one file, 2 = in any subset of the files
+	tx2   int  // rich only: 0 = none, 1 = a second transaction in at most one file, 2 = in any subset of the files
 	pool  int  // names per kind (2 or 3)
 	edits int  // 0: unsaved text in {none, f1} (f0 when n == 1); 1: in {none, any file}
 	via   bool // the unsaved text may also arrive with didOpen (no didChange)
@@ -80,7 +83,7 @@ type c09Cfg struct {
 
 type c09Occ struct {
 	kind, file, line, s, e int
-	decl, added            bool
+	decl, added, inAssert  bool
 	name                   int // pool index
 	idx                    int // index of the transaction (declarations: of the directive) in its file
 }
@@ -88,6 +91,8 @@ type c09Occ struct {
 type c09Tx struct {
 	mon, day                  int
 	payee, acct, comm, amount string
+	memo                      bool // shape B: header "date payee | memo" and a balance assertion "= amount comm" on the posting
+	acomm                     string // shape B: the commodity of the balance assertion
 }
 
 type c09Dir struct {
@@ -170,15 +175,29 @@ func (b *c09FB) decl(nm int) {
 	b.ln("commodity " + c09Pool[c09Comm][nm])
 }
 
-func (b *c09FB) tx(mon, day int, nm int, amount string, added bool) {
+func (b *c09FB) tx(mon, day int, nm int, amount string, memo, added bool) {
 	date := "2024-0" + zzverif.Itoa(mon) + "-0" + zzverif.Itoa(day)
-	t := c09Tx{mon: mon, day: day, payee: c09Pool[c09Payee][nm], acct: c09Pool[c09Acct][nm], comm: c09Pool[c09Comm][nm], amount: amount}
+	t := c09Tx{mon: mon, day: day, memo: memo, payee: c09Pool[c09Payee][nm], acct: c09Pool[c09Acct][nm], comm: c09Pool[c09Comm][nm], amount: amount}
+	if memo {
+		t.acomm = t.comm
+	}
 	ti := len(b.f.txs)
 	b.occ(c09Payee, len(date)+1, nm, false, added, ti)
-	b.ln(date + " " + t.payee)
+	if memo {
+		b.ln(date + " " + t.payee + " | memo")
+	} else {
+		b.ln(date + " " + t.payee)
+	}
 	b.occ(c09Acct, 4, nm, false, added, ti)
-	b.occ(c09Comm, 4+len(t.acct)+2+len(amount)+1, nm, false, added, ti)
-	b.ln("    " + t.acct + "  " + amount + " " + t.comm)
+	ccol := 4 + len(t.acct) + 2 + len(amount) + 1
+	b.occ(c09Comm, ccol, nm, false, added, ti)
+	if memo {
+		b.occ(c09Comm, ccol+len(t.comm)+3+len(amount)+1, nm, false, added, ti)
+		b.f.occs[len(b.f.occs)-1].inAssert = true
+		b.ln("    " + t.acct + "  " + amount + " " + t.comm + " = " + amount + " " + t.acomm)
+	} else {
+		b.ln("    " + t.acct + "  " + amount + " " + t.comm)
+	}
 	b.ln("    eq:open")
 	b.f.txs = append(b.f.txs, t)
 }
@@ -266,19 +285,19 @@ func c09Build(c c09Cfg) *c09WS {
 			b.decl(0)
 		}
 		day := i + 1
-		b.tx(1, day, w.pick("n"+si+".1"), "1", false)
+		b.tx(1, day, w.pick("n"+si+".1"), "1", false, false)
 		second := i == tx2file
 		if c.rich && c.tx2 == 2 {
 			second = zzverif.Choice("tx2."+si, 2) == 1
 		}
 		if second {
 			b.ln("")
-			b.tx(2, day, w.pick("n"+si+".2"), "2", false)
+			b.tx(2, day, w.pick("n"+si+".2"), "2", true, false)
 		}
 		f.disk = b.text
 		if i == w.edit {
 			f.edited = true
-			b.tx(3, day, w.pick("added"), "3", true)
+			b.tx(3, day, w.pick("added"), "3", true, true)
 		}
 		f.cur = b.text
 		f.lineOff = append(f.lineOff, b.off) // the empty last line
@@ -319,8 +338,12 @@ func c09KnownReach(cls string) bool {
 
 // want: the locations the derivation demands for the symbol (kind, name), declarations iff asked. The ideal is: every
 // occurrence in every file of the tree, each in the editor's view of its file, attributed to its file.
-func (w *c09WS) want(kind, name int, withDecl bool, fromDecl bool) []c09Loc {
-	if fromDecl && c09KnownReach(c09ClsFromDecl) {
+func (w *c09WS) want(cur c09Occ, withDecl bool) []c09Loc {
+	kind, name := cur.kind, cur.name
+	if cur.decl && c09KnownReach(c09ClsFromDecl) {
+		return nil
+	}
+	if cur.inAssert && c09KnownReach(c09ClsAssertComm) {
 		return nil
 	}
 	visible := make([]bool, w.n)
@@ -353,6 +376,9 @@ func (w *c09WS) want(kind, name int, withDecl bool, fromDecl bool) []c09Loc {
 				continue
 			}
 			if o.added && diskView {
+				continue
+			}
+			if o.inAssert && c09KnownReach(c09ClsAssertComm) {
 				continue
 			}
 			l := c09Loc{file: attributed, line: o.line, s: o.s, eline: uint32(o.line), e: uint32(o.e)}
@@ -505,19 +531,27 @@ func (f *c09File) applyEdits(edits []protocol.TextEdit, what string) (string, bo
 // expectText: the file's text with the name substituted at the listed occurrences (every other byte unchanged).
 func (w *c09WS) expectText(fi int, locs []c09Loc, newName string) string {
 	f := w.files[fi]
-	out := f.cur
-	// occurrences of one symbol are on distinct lines: substitute from the last line to the first
-	for line := len(f.lineOff) - 1; line >= 0; line-- {
-		for _, l := range locs {
-			if l.file == fi && l.line == line {
-				o := f.lineOff[line]
-				end := int(l.e)
-				if l.eline == 0xFFFFFFFF { // declaration without end (known class): the name runs to the end of the line
-					end = f.lineLen[line]
-				}
-				out = out[:o+l.s] + newName + out[o+end:]
-			}
+	var mine []c09Loc
+	for _, l := range locs {
+		if l.file == fi {
+			mine = append(mine, l)
 		}
+	}
+	// substitute from the last occurrence to the first (insertion sort by line, column)
+	for i := 1; i < len(mine); i++ {
+		for j := i; j > 0 && (mine[j].line < mine[j-1].line || (mine[j].line == mine[j-1].line && mine[j].s < mine[j-1].s)); j-- {
+			mine[j], mine[j-1] = mine[j-1], mine[j]
+		}
+	}
+	out := f.cur
+	for i := len(mine) - 1; i >= 0; i-- {
+		l := mine[i]
+		o := f.lineOff[l.line]
+		end := int(l.e)
+		if l.eline == 0xFFFFFFFF { // declaration without end (known class): the name runs to the end of the line
+			end = f.lineLen[l.line]
+		}
+		out = out[:o+l.s] + newName + out[o+end:]
 	}
 	return out
 }
@@ -547,14 +581,14 @@ func verifC09(c c09Cfg) {
 			if withDecl {
 				what = kn + " references with declarations"
 			}
-			w.compare(what, got, w.want(oc.kind, oc.name, withDecl, oc.decl))
+			w.compare(what, got, w.want(oc, withDecl))
 		}
 		zzverif.Reach("C09.references")
 
 		newName := c09New[oc.kind]
 		we, err := s.Rename(ctx, &protocol.RenameParams{TextDocumentPositionParams: tdp, NewName: newName})
 		zzverif.Assert(err == nil, "rename: error")
-		want := w.want(oc.kind, oc.name, true, oc.decl)
+		want := w.want(oc, true)
 		var edits []protocol.Location
 		if we != nil {
 			zzverif.Assert(len(we.DocumentChanges) == 0, "rename: edits outside WorkspaceEdit.Changes")
@@ -634,6 +668,8 @@ func (w *c09WS) reparse(fi int, text string, kind int, renamed []c09Loc, newName
 		switch {
 		case o.decl:
 			wantDirs[o.idx].name = newName
+		case o.inAssert:
+			wantTxs[o.idx].acomm = newName
 		case kind == c09Acct:
 			wantTxs[o.idx].acct = newName
 		case kind == c09Comm:
@@ -658,9 +694,16 @@ func (w *c09WS) reparse(fi int, text string, kind int, renamed []c09Loc, newName
 	for ti, t := range wantTxs {
 		g := j.Transactions[ti]
 		ok := g.Date.Year == 2024 && g.Date.Month == t.mon && g.Date.Day == t.day &&
-			g.Description == t.payee && getPayeeOrDescription(&g) == t.payee && len(g.Postings) == 2 && g.Postings[0].Account.Name == t.acct &&
+			((!t.memo && g.Description == t.payee && g.Payee == "" && g.Note == "") || (t.memo && g.Payee == t.payee && g.Note == "memo" && g.Description == t.payee+" | memo")) &&
+			len(g.Postings) == 2 && g.Postings[0].Account.Name == t.acct &&
 			g.Postings[0].Amount != nil && g.Postings[0].Amount.Commodity.Symbol == t.comm && g.Postings[0].Amount.RawQuantity == t.amount &&
-			g.Postings[1].Account.Name == "eq:open" && g.Postings[1].Amount == nil
+			g.Postings[1].Account.Name == "eq:open" && g.Postings[1].Amount == nil && g.Postings[0].Cost == nil && g.Postings[1].BalanceAssertion == nil
+		if ok && t.memo {
+			ba := g.Postings[0].BalanceAssertion
+			ok = ba != nil && !ba.IsStrict && !ba.IsInclusive && ba.Amount.Commodity.Symbol == t.acomm && ba.Amount.RawQuantity == t.amount
+		} else if ok {
+			ok = g.Postings[0].BalanceAssertion == nil
+		}
 		zzverif.Assert(ok, what+"a transaction differs from the original with the name substituted")
 	}
 }
@@ -671,6 +714,6 @@ func VerifC09Two()   { verifC09(c09Cfg{n: 2, rich: true, tx2: 1, pool: 2, edits:
 func VerifC09Three() { verifC09(c09Cfg{n: 3, rich: false, pool: 2, edits: 0}) }
 
 // thorough tier
-func VerifC09TwoLong()   { verifC09(c09Cfg{n: 2, rich: true, tx2: 2, pool: 3, edits: 1, via: true}) }
-func VerifC09ThreeLong() { verifC09(c09Cfg{n: 3, rich: true, tx2: 1, pool: 2, edits: 1}) }
+func VerifC09TwoLong()   { verifC09(c09Cfg{n: 2, rich: true, tx2: 1, pool: 3, edits: 1, via: true}) }
+func VerifC09ThreeLong() { verifC09(c09Cfg{n: 3, rich: true, tx2: 0, pool: 2, edits: 1}) }
 func VerifC09FourLong()  { verifC09(c09Cfg{n: 4, rich: false, pool: 2, edits: 1}) }
